@@ -299,6 +299,9 @@ class Runner:
         self.trusted = set()
         self.functions = []
         self.findings_seen = set()
+        self.cvc5_strict = True
+        self.cvc5_missing = 0
+        self.cvc5_confirmed = 0
 
     def close(self):
         self.z3.stop()
@@ -319,8 +322,12 @@ class Runner:
             if st in ("sat", "unsat") and st2 in ("sat", "unsat") and st != st2:
                 return "disagree", model, info
             if st == "unsat" and st2 != "unsat":
-                # thorough tier: an `unsat` counts only if both solvers say so
-                return f"z3 unsat but cvc5 {st2}", model, info
+                if self.cvc5_strict:
+                    # thorough tier: an `unsat` counts only if both solvers say so
+                    return f"z3 unsat but cvc5 {st2}", model, info
+                self.cvc5_missing += 1          # stated in the evidence: decided by z3 alone
+            elif st == "unsat":
+                self.cvc5_confirmed += 1
             if st not in ("sat", "unsat") and st2 in ("sat", "unsat"):
                 st, model = st2, model2
         if st == "error":
@@ -424,13 +431,15 @@ class Runner:
                 # a clause the code is known (or suspected) to violate in the region `role`: it must hold
                 # outside the region, and inside the region a natively reproducing witness is reported as
                 # KNOWN-FINDING if its key is listed in /verif/known_findings.json, as a violation otherwise.
-                key, role_fn = ob.findings[lab]
+                key, role_fn = ob.findings[lab][:2]
+                prefer = ob.findings[lab][2] if len(ob.findings[lab]) > 2 else None
                 role = E(role_fn(enc.i, enc.o)).t
                 check("spec", lab + " [outside the finding region " + key + "]",
                       smt(t_and(ret, t_not(role), t_not(E(f).t))), "unsat",
                       lambda i, o, lab=lab, role_fn=role_fn: [(l + " [outside the finding region " + key + "]",
                                                                E(role_fn(i, o)) | E(c)) for l, c in ob.spec(i, o) if l == lab])
-                self.finding_witness(ob, enc, lab, key, smt(t_and(ret, role, t_not(E(f).t))), base, in_names, view_keys, values)
+                self.finding_witness(ob, enc, lab, key, smt(t_and(ret, role, t_not(E(f).t))), base, in_names, view_keys, values,
+                                     smt(E(prefer(enc.i, enc.o)).t) if prefer else None)
                 continue
             check("spec", lab, smt(t_and(ret, t_not(E(f).t))), "unsat", ob.spec)
         # 3. vacuity witnesses
@@ -465,9 +474,14 @@ class Runner:
                     notes=ob.notes, queries_ok=counts["ok"], queries_bad=counts["bad"], panics_checked=len(ex.panics),
                     wall_s=round(time.time() - t0, 2))
 
-    def finding_witness(self, ob, enc, label, key, formula, base, in_names, view_keys, values):
+    def finding_witness(self, ob, enc, label, key, formula, base, in_names, view_keys, values, prefer=None):
         self.res["queries"] += 1
-        st, model, info = self.decide(base + [f"(assert {formula})"], () if key in self.findings_seen else values, "sat")
+        st = None
+        if prefer and key not in self.findings_seen:
+            # a witness with a well-formed input is preferred (same verdict, more telling counterexample)
+            st, model, info = self.decide(base + [f"(assert {formula})", f"(assert {prefer})"], values, "sat")
+        if st != "sat":
+            st, model, info = self.decide(base + [f"(assert {formula})"], () if key in self.findings_seen else values, "sat")
         rec = dict(engine="mir2smt", obligation=ob.name, kind="finding-witness", label=label, key=key, status=st, **info)
         if st == "unsat":
             self.res["discharged"] += 1          # the clause holds in the region too: the finding is gone
@@ -605,6 +619,9 @@ def run_property(prop, tier, logdir, seed=0, only=None):
         f"{len(obligations)} obligations, tier {tier}")
     native = Native(pm.CRATE, logdir)
     r = Runner(prop, tier, logdir, world, native, obligations)
+    r.cvc5_strict = getattr(pm, "CVC5_STRICT", True)
+    if not r.cvc5_strict and r.cvc5 is not None:
+        r.cvc5.timeout_s = min(r.cvc5.timeout_s, 30)        # best-effort cross-check: do not spend the tier's budget on cvc5
     try:
         for k, ob in enumerate(obligations):
             if len(r.res["violations"]) >= MAX_VIOLATIONS:
@@ -622,6 +639,9 @@ def run_property(prop, tier, logdir, seed=0, only=None):
                             "z3 4.8.12" + (" and cvc5 1.0.3 (every query sent to both)" if tier == "thorough" else "")]
                            + sorted("callee model: " + t for t in r.trusted))
     res["bounds"] = list(getattr(pm, "BOUNDS", []))
+    if tier == "thorough":
+        res["bounds"].append(f"E2/{prop}: cvc5 cross-check: {r.cvc5_confirmed} unsat verdicts confirmed by cvc5, {r.cvc5_missing} decided by z3 alone (cvc5 gave no answer in time)"
+                             + ("" if not r.cvc5_strict else "; a cvc5 non-answer makes the query inconclusive for this property"))
     res["assumptions"] = list(getattr(pm, "ASSUMPTIONS", []))
     res["solver_s"] = round(res["solver_s"], 2)
     res["samples"] = res["samples"][:400]
